@@ -104,6 +104,19 @@ def scripted():
     H.append(("explicit_items_second_file", [o("mat_to", "d1", "M1", "m1", ai=True), o("ads_to", "d1", "A1", "a0", ai=True), o("iso_to", "d1", "I1"),
                                              o("mat_to", "d2", "M1", "m1", ai=True), o("ads_to", "d2", "A1", "a0", ai=True), o("iso_to", "d2", "I1"),
                                              o("iso_from", "d2", cm="M1"), o("iso_from", "d2", cm="M2"), o("iso_from", "d2", ca="A1"), o("iso_from", "d2", cm="M1", ca="A2")]))
+    # isotherms stored in non-default representations (degC incl. 0 degC, torr / kPa, volume / molar material basis ...)
+    # and every kind of criterion: falsy values, values matching nothing, combinations, the empty criteria
+    both = dict(am=True, aa=True)
+    H.append(("representations_and_criteria", [
+        o("iso_to", "d1", "I10", **both), o("iso_to", "d1", "I12", **both), o("iso_to", "d1", "I2", **both), o("iso_to", "d1", "I1", **both),
+        o("iso_to", "d1", "I11", **both), o("iso_to", "d1", "I3", **both), o("iso_from", "d1"), o("iso_from", "d1"),
+        o("iso_from", "d1", ct="T30"), o("iso_from", "d1", ct="T0"), o("iso_from", "d1", ct="T0"), o("iso_from", "d1", cm="M2", ct="T0"),
+        o("iso_from", "d1", cm="M1", ct="T0"), o("iso_from", "d1", cm="M1", ct="T0"), o("iso_from", "d1", cy="tm", ct="T0"),
+        o("iso_from", "d1", ca="A1", ct="T0", cy="tp"), o("iso_from", "d1", ct="nomatch"), o("iso_from", "d1", cy="nomatch"),
+        o("iso_from", "d1", cm="nomatch"), o("iso_from", "d1", ca="nomatch", ct="T0"), o("iso_from", "d1", cy="tp"), o("iso_from", "d1", cy="tm"),
+        o("iso_from", "d1", cm="M1", ca="A1", ct="T80.5", cy="tp"), o("iso_from", "d2", ct="T0"),
+        o("iso_del", "d1", "I10", by="retrieved"), o("iso_del", "d1", "I12", by="retrieved"), o("iso_del", "d1", "I2", by="id"),
+        o("iso_from", "d1", ct="T0"), o("iso_from", "d1")]))
     # a later session on the same file
     H.append(("new_session", [o("iso_to", "d1", "I1", am=True, aa=True), o("session"), o("iso_from", "d1"), o("iso_to", "d1", "I3", am=True, aa=True),
                               o("iso_to", "d1", "I3"), o("iso_to", "d1", "I2", am=True, aa=True), o("iso_to", "d1", "I2", am=True), o("iso_from", "d1")]))
@@ -132,7 +145,7 @@ def scripted():
 
 def lift(hist, rng):
     """Rename the isotherm keys of a generated history into the full universe (same references where possible)."""
-    m = {"I1": rng.choice(["I1", "I1", "I7"]), "I2": rng.choice(["I2", "I2", "I5", "I6"]), "I3": rng.choice(["I3", "I3", "I4"])}
+    m = {"I1": rng.choice(["I1", "I7", "I10", "I10"]), "I2": rng.choice(["I2", "I5", "I6", "I11", "I12"]), "I3": rng.choice(["I3", "I4", "I12"])}
     out = []
     for o in hist:
         o = dict(o)
@@ -334,7 +347,7 @@ def main(tier, seed):
                 histories={"witness": len(witnesses), "scripted": len(scripted()), "simulated": nsim, "bulk": 1},
                 exhaustive=False,
                 rule="histories = shortest witness histories of every Impl-vs-Spec divergence class (TLC BFS) + scripted orders + TLC -simulate "
-                     "random histories (14 operations over 2 files, 2 adsorbates, 2 materials, 3-7 isotherms, 6 type keys; every 3rd history renamed "
+                     "random histories (16 operations over 2 files, 2 adsorbates, 2 materials, 3-7 isotherms, 6 type keys; every 3rd history renamed "
                      "into the full universe incl. BaseIsotherm / unstorable value classes); every step is judged by StoreOracle against Store!SpecStep "
                      "from the recorded pre-state; distinct = distinct (operation, projection of target file, registries); non-trivial = not a retrieval "
                      "that returns nothing tracked")
